@@ -3,6 +3,7 @@ package actionlint
 import (
 	"fmt"
 	"io"
+	"sort"
 	"time"
 )
 
@@ -64,7 +65,15 @@ func (v *Visitor) Visit(n *Workflow) error {
 		t = time.Now()
 	}
 
+	// Visit jobs in order of their positions. Workflow.Jobs is a map and its iteration order is
+	// random. Some rules report an error only once (e.g. an error on parsing a local action used by
+	// multiple jobs) so the visiting order must be deterministic to make the result deterministic.
+	jobs := make([]*Job, 0, len(n.Jobs))
 	for _, j := range n.Jobs {
+		jobs = append(jobs, j)
+	}
+	sort.Slice(jobs, func(i, j int) bool { return jobs[i].Pos.IsBefore(jobs[j].Pos) })
+	for _, j := range jobs {
 		if err := v.visitJob(j); err != nil {
 			return err
 		}
